@@ -96,7 +96,7 @@ def b_type(ex, state, args, kwargs, sv):
     def f(a):
         if isinstance(a, VDyn):
             return pyval.type_of(a)
-        m = {"int": "int", "bool": "bool", "real": "float", "bytes": "bytes", "str": "str", "none": "NoneType",
+        m = {"int": "int", "bool": "bool", "real": "float", "bytes": "bytes", "abytes": "bytes", "str": "str", "none": "NoneType",
              "tuple": "tuple"}
         if a.kind in m:
             return VClass(m[a.kind])
@@ -431,9 +431,17 @@ def b_struct_unpack(ex, state, args, kwargs, sv):
     if not isinstance(data, VBytes):
         _type_error(ex, state)
     ex.raise_if(state, z3.Length(data.t) != n, "struct.error")
-    for i in range(n):
-        state.assume(z3.And(data.t[i] >= 0, data.t[i] <= 255))
-    return VTuple([VInt(be_value(data.t, n))])
+    t = data.t
+    if z3.is_app(t) and t.decl().kind() == z3.Z3_OP_SEQ_EXTRACT:
+        # unpack(fmt, base[lo:lo+n]): read the octets from the base sequence directly (same values, simpler terms)
+        base, lo = t.arg(0), t.arg(1)
+        elems = [base[lo + i] for i in range(n)]
+    else:
+        elems = [t[i] for i in range(n)]
+    for e in elems:
+        state.assume(z3.And(e >= 0, e <= 255))
+    val = z3.Sum([e * (256 ** (n - 1 - i)) for i, e in enumerate(elems)]) if n > 1 else elems[0]
+    return VTuple([VInt(val)])
 
 
 @builtin("struct.pack")
@@ -612,6 +620,9 @@ def ex_name(ex):
 def _mk_str_fn(name):
     def fn(ex, state, args, kwargs, sv):
         from . import natives
+        if z3.is_string_value(sv.t) and not args and name in ("lower", "upper", "strip", "lstrip", "rstrip", "title",
+                                                                "capitalize"):
+            return VStr(getattr(sv.t.as_string(), name)())
         return VStr(natives.str_fn(ex, state, name, sv, args))
     return fn
 
